@@ -929,6 +929,9 @@ class ShortIntegrationFrameComputer(LinearFilterBankFrameComputer):
         # given a buffer, compute its fourier transform. Always copies
         # the data
         assert len(buff) <= self._dft_size
+        if buff.dtype != np.complex128:
+            # numpy >= 2 transforms float32 input in single precision
+            buff = buff.astype(np.float64, copy=False)
         if config.USE_FFTPACK and self._real:
             from scipy import fftpack
 
